@@ -39,8 +39,12 @@ namespace igris
             m_mutex.lock();
             bWasSignalled = m_bFlag;
             m_bFlag = true;
-            m_mutex.unlock();
+            // Notify while the mutex is still held: a waiter can only return from
+            // wait() (and then destroy this event, as wait_current_schedee does
+            // with its stack-allocated waiter) after it got the mutex, i.e. after
+            // this thread has finished touching the condition variable.
             m_condition.notify_all();
+            m_mutex.unlock();
             return bWasSignalled == false;
         }
 
